@@ -157,7 +157,7 @@ def check_bitserial(ctx, rep, tier):
     # any other constructor (Default::default, ...) must produce the same initial decoder
     for f in ctx.facts['fns']:
         o = f.get('output') or {}
-        if f['path'] != f_new['path'] and not f.get('derived') and f['body']['arg_count'] == 0 and o.get('k') == 'adt' and o.get('path') == PS2:
+        if f['path'] != f_new['path'] and f['body']['arg_count'] == 0 and o.get('k') == 'adt' and o.get('path') == PS2:
             e2 = Engine(prog)
             l2 = e2.run(f['path'])
             ok = len(l2) == 1 and l2[0].kind == 'return' and l2[0].ret == state0
